@@ -547,6 +547,17 @@ func runC20(c *Ctx) {
 			c.Check("L5-cited-node-is-the-failing-one", fmt.Sprintf("%s#error%d", fnName(f), k), bad == "", in.Pos(), "%s", orStr(bad, "cites the node whose value was found at fault"))
 		})
 	}
+	// L6: a comparison or logic type fault gets its position from the error the expression evaluator makes
+	// when it finds the operands ill-typed. That it does find them is the operator table of C01 (E3): every
+	// comparison / logical result is computed under a test of both operands' kinds, the other edge makes
+	// the (positioned, L3) error. Without the test the fault surfaces later as a bare reflect panic.
+	c.only = func(key string) bool {
+		return strings.HasPrefix(key, "Expression.Evaluate#logical ") || key == "Expression.Evaluate#computed-results-accounted" || strings.HasPrefix(key, "Expression.Evaluate#unplaced")
+	}
+	c.kindGuardsOnly = true
+	c.ruleE3("L6-type-faults-found-by-the-evaluator")
+	c.only, c.kindGuardsOnly = nil, false
+	c.Min("L6-type-faults-found-by-the-evaluator", 3)
 	c.Check("L5-cited-node-is-the-failing-one", "inventory", true, 0, "%d error(s) created with the position of a node other than the evaluator's own receiver", nL5)
 
 	// L4: citing closure
